@@ -95,8 +95,9 @@ hll_sketch_alloc<A>::hll_sketch_alloc(HllSketchImpl<A>* that) :
 
 template<typename A>
 hll_sketch_alloc<A>& hll_sketch_alloc<A>::operator=(const hll_sketch_alloc<A>& other) {
-  sketch_impl->get_deleter()(sketch_impl);
-  sketch_impl = other.sketch_impl->copy();
+  // copy first, then swap: safe for self-assignment and for a moved-from target (sketch_impl == nullptr)
+  hll_sketch_alloc<A> copy(other);
+  std::swap(sketch_impl, copy.sketch_impl);
   return *this;
 }
 
